@@ -3,7 +3,6 @@ package main
 import (
 	"encoding/hex"
 	"fmt"
-	"strings"
 	"sync"
 
 	"github.com/cbehopkins/gkvlite"
@@ -79,7 +78,7 @@ func renderShape(ns []shapeNode, d int) string {
 func shapeOf(st *gkvlite.Store, c *gkvlite.Collection) string {
 	ns, err := collectShape(st, c)
 	if err != nil {
-		return "err:" + strings.ReplaceAll(err.Error(), " ", "_")
+		return errClass(err)
 	}
 	return renderShape(ns, 0)
 }
